@@ -7,6 +7,7 @@ parameter), RegionValidator (the pairing state machine) and TypoChecker / the si
 through `Regex.search`.  Lines are the file's lines without their `\n`.  Core Lean only.
 -/
 import SymbolVerif.Model.Lint.Regex
+import SymbolVerif.Model.Lint.Indent
 namespace SymbolVerif.Lint.Rules
 open SymbolVerif.Lint.Regex (isSpace RE search)
 
@@ -100,6 +101,31 @@ def isBlank (l : Str) : Bool := l.all isSpace
 def consecutiveEmpty : Validator Bool :=
   { reset := false
     check := fun prev n l => (isBlank l, if isBlank l && prev then [⟨.consecutiveEmpty, n⟩] else [])
+    finalize := fun _ => [] }
+
+/-- `multiline` after a line, as `parse_file` updates it: inside a multi-line directive the flag follows
+    the trailing backslash of each line (`process_continuation`); otherwise an include line never opens
+    one, a directive line opens one iff it ends in a backslash (`process_preprocessor`), any other line
+    does not.  (An unknown directive raises `RuntimeError` and ends the run: outside this function.) -/
+def nextMultiline (multiline : Bool) (l : Str) : Bool :=
+  if multiline then Indent.endsBackslash l
+  else if (Indent.matchInclude l).isSome then false
+  else if (Indent.matchDirective l).isSome then Indent.endsBackslash l
+  else false
+
+/-- the loop state of `parse_file` that matters for blank lines: the `multiline` flag and
+    `is_empty_line` of the previous line (`line_number` is the validator's line counter) -/
+structure ParseState where
+  multiline : Bool
+  isEmpty : Bool
+
+/-- `consecutiveEmpty` inside the loop of `parse_file`, WITH the `multiline` flag: the bookkeeping
+    `prev_empty_line = is_empty_line; is_empty_line = ...; report` runs for every line, before the
+    branch on `multiline` - also for the lines of a multi-line directive and for the line that ends it -/
+def parseFileBlank : Validator ParseState :=
+  { reset := ⟨false, false⟩
+    check := fun s n l =>
+      (⟨nextMultiline s.multiline l, isBlank l⟩, if isBlank l && s.isEmpty then [⟨.consecutiveEmpty, n⟩] else [])
     finalize := fun _ => [] }
 
 /-- `emptyNearEnd`: after the loop, `if prev and not prev.strip()` on the last line but one; reported
@@ -235,7 +261,7 @@ structure Config where
 def lint (cfg : Config) (lines : List Str) : List Report :=
   run whitespace lines ++ run (tooLong cfg.lineLengthLimit) lines ++ run (pragmaOnce cfg.isHeader) lines ++
   run (typos cfg.typoTable) lines ++ run region lines ++ run (copyright cfg.copyrightOk) lines ++
-  run consecutiveEmpty lines ++ emptyNearEnd lines
+  run parseFileBlank lines ++ emptyNearEnd lines
 
 /-- `os.sys.exit(analyzer.con_reporter.total_failures)` -/
 def exitStatus (reports : List Report) : Nat := reports.length
